@@ -10,13 +10,19 @@ def serve(arg):
 
     def make_private():
         t = core.PeriodicTable("T1")
+        rl = bool(variant & 8)    # (reload=True on a table that was never loaded is a plain load)
         if variant & 2:           # the two loaders in the other order
-            density.init(t)
-            mass.init(t)
+            density.init(t, reload=rl)
+            mass.init(t, reload=rl)
         else:
-            mass.init(t)
-            density.init(t)
+            mass.init(t, reload=rl)
+            density.init(t, reload=rl)
         return t
+    if variant & 8:
+        # the owner customised some masses; reload=True is the documented way to restore the table
+        pub = periodictable.elements
+        pub.D._mass, pub.T._mass, pub[26]._mass, pub[8][18]._mass = 2.5, 3.5, 60.0, 19.0
+        mass.init(pub, reload=True)
     late_private = bool(variant & 4) and arg.get("private")     # the private table is only created after the public one was served
     if arg.get("private") and not late_private:
         tabs["T1"] = make_private()
@@ -30,8 +36,13 @@ def serve(arg):
             ats = [(el, 0)] + [(iso, iso.isotope) for iso in el]
             if variant & 1:       # the first thing this interpreter is asked is the density of an isotope
                 ats = ats[1:] + ats[:1]
-            for at, a in ats:
+            if z == 1:                # deuterium and tritium under their own names
+                ats += [(t.D, 2, "D"), (t.T, 3, "T")]
+            for x in ats:
+                at, a = x[0], x[1]
                 ev = {"ev": "serve", "T": T, "z": z, "a": a}
+                if len(x) > 2:
+                    ev["alias"] = x[2]
                 try:
                     if variant & 1:
                         ev["density"] = dec.enc(at.density)
@@ -42,6 +53,12 @@ def serve(arg):
                         ev["density"] = dec.enc(at.density)
                     ev["number_density"] = dec.enc(at.number_density)
                     ev["interatomic_distance"] = dec.enc(at.interatomic_distance)
+                    # the same through the module functions
+                    ev["fn"] = {"mass": dec.enc(mass.mass(at)), "density": dec.enc(density.density(at)),
+                                "number_density": dec.enc(density.number_density(at)),
+                                "interatomic_distance": dec.enc(density.interatomic_distance(at))}
+                    if variant & 1:
+                        ev["fn"]["density"] = ev["density"]
                 except Exception as e:
                     ev["exc"] = "%s: %s" % (type(e).__name__, str(e)[:80])
                 out.append(ev)
